@@ -142,6 +142,13 @@ func (s *Server[StateT]) handleCommand(opCode proto.OpCode, ctx *Context[StateT]
 	}
 }
 
+// cleanRequestPath anchors a path received from the client at the served root:
+// the result is rooted and lexically clean, so it contains no ".." element that
+// could lead the underlying filesystem out of the root.
+func cleanRequestPath(p string) string {
+	return filepath.Clean(string(filepath.Separator) + p)
+}
+
 func (s *Server[StateT]) handleOpenDir(ctx *Context[StateT]) error {
 	// here we should check that we can read requested dir and set state if it's true
 	dirPath, err := ctx.rd.ReadOpenDir()
@@ -149,7 +156,7 @@ func (s *Server[StateT]) handleOpenDir(ctx *Context[StateT]) error {
 		return fmt.Errorf("read dir failed: %w", err)
 	}
 
-	return ctx.wr.SendOpenDirResult(s.Handler.HandleOpenDir(ctx, dirPath))
+	return ctx.wr.SendOpenDirResult(s.Handler.HandleOpenDir(ctx, cleanRequestPath(dirPath)))
 }
 
 func (s *Server[StateT]) handleReadDirEntry(ctx *Context[StateT]) error {
@@ -170,7 +177,7 @@ func (s *Server[StateT]) handleStatFile(ctx *Context[StateT]) error {
 		return fmt.Errorf("read stat path failed: %w", err)
 	}
 
-	fi, err := s.Handler.HandleStatFile(ctx, filePath)
+	fi, err := s.Handler.HandleStatFile(ctx, cleanRequestPath(filePath))
 	if err != nil {
 		return ctx.wr.SendStatFileError()
 	}
@@ -187,7 +194,7 @@ func (s *Server[StateT]) handleOpenFile(ctx *Context[StateT]) error {
 		return fmt.Errorf("read file to open path failed: %w", err)
 	}
 
-	filePath = filepath.Clean(filePath)
+	filePath = cleanRequestPath(filePath)
 
 	if _, name := filepath.Split(filePath); name == "CLOSEFILE" {
 		s.Handler.HandleCloseFile(ctx)
@@ -268,7 +275,7 @@ func (s *Server[StateT]) handleCreateFile(ctx *Context[StateT]) error {
 		return fmt.Errorf("read file to create path failed: %w", err)
 	}
 
-	if err = s.Handler.HandleCreateFile(ctx, path); err != nil {
+	if err = s.Handler.HandleCreateFile(ctx, cleanRequestPath(path)); err != nil {
 		return ctx.wr.SendCreateFileError()
 	}
 
@@ -301,7 +308,7 @@ func (s *Server[StateT]) handleDeleteFile(ctx *Context[StateT]) error {
 		return fmt.Errorf("read file to delete path failed: %w", err)
 	}
 
-	if err = s.Handler.HandleDeleteFile(ctx, path); err != nil {
+	if err = s.Handler.HandleDeleteFile(ctx, cleanRequestPath(path)); err != nil {
 		return ctx.wr.SendDeleteFileError()
 	}
 
@@ -314,7 +321,7 @@ func (s *Server[StateT]) handleMkdir(ctx *Context[StateT]) error {
 		return fmt.Errorf("read directory to create path failed: %w", err)
 	}
 
-	if err = s.Handler.HandleMkdir(ctx, path); err != nil {
+	if err = s.Handler.HandleMkdir(ctx, cleanRequestPath(path)); err != nil {
 		return ctx.wr.SendMkdirError()
 	}
 
@@ -327,7 +334,7 @@ func (s *Server[StateT]) handleRmdir(ctx *Context[StateT]) error {
 		return fmt.Errorf("read directory to remove path failed: %w", err)
 	}
 
-	if err = s.Handler.HandleRmdir(ctx, path); err != nil {
+	if err = s.Handler.HandleRmdir(ctx, cleanRequestPath(path)); err != nil {
 		return ctx.wr.SendRmdirError()
 	}
 
@@ -340,7 +347,7 @@ func (s *Server[StateT]) handleGetDirSize(ctx *Context[StateT]) error {
 		return fmt.Errorf("read directory to calculate size path failed: %w", err)
 	}
 
-	size, err := s.Handler.HandleGetDirSize(ctx, path)
+	size, err := s.Handler.HandleGetDirSize(ctx, cleanRequestPath(path))
 	if err != nil {
 		return ctx.wr.SendGetDirectorySizeError()
 	}
